@@ -130,6 +130,7 @@ type Program struct {
 	Wrap     bool    `json:"wrap,omitempty"`    // argument expressions wrapped in rt.A
 	Generic  bool    `json:"generic,omitempty"` // directive inside a generic function
 	InMethod bool    `json:"in_method,omitempty"`
+	PadLines bool    `json:"pad_lines,omitempty"` // the directive starts at line 98 or 998 of its file
 	InVarLit bool    `json:"in_var_lit,omitempty"` // directive inside a function literal that initialises a package-level variable
 	// Shadow: user variables named like identifiers of the generated code hold
 	// the Params values (and other argument values) of the directive.
